@@ -90,6 +90,9 @@ impl RuntimeData {
                 })?;
             let table = CaoLangTable::with_capacity(8, self.memory.clone()).map_err(|err| {
                 debug!("Failed to init table {:?}", err);
+                // give back the object that will not be initialised
+                self.memory
+                    .dealloc(obj_ptr, Layout::new::<CaoLangObject>());
                 ExecutionErrorPayload::OutOfMemory
             })?;
 
@@ -224,10 +227,12 @@ impl RuntimeData {
                 })?;
 
             let layout = CaoLangString::layout(payload.len());
-            let mut ptr = self
-                .memory
-                .alloc(layout)
-                .map_err(|_| ExecutionErrorPayload::OutOfMemory)?;
+            let mut ptr = self.memory.alloc(layout).map_err(|_| {
+                // give back the object that will not be initialised
+                self.memory
+                    .dealloc(obj_ptr, Layout::new::<CaoLangObject>());
+                ExecutionErrorPayload::OutOfMemory
+            })?;
 
             let result: *mut u8 = ptr.as_mut();
             std::ptr::copy(payload.as_ptr(), result, payload.len());
